@@ -134,3 +134,16 @@ Theorem C18_whole_image_system_information : forall c dirs lg s',
     In (Image.T_SYSINFO, {| MemWriter.l_rva := N.of_nat off; MemWriter.l_size := N.of_nat Image.SYSINFO_SZ |}) dirs.
 Proof. exact ImageThreads.image_sysinfo. Qed.
 Print Assumptions C18_whole_image_system_information.
+
+(* End to end (structural model -> image): whenever the records of the content are [meminfo_list] of the lines of the target's
+   memory map, the stream of the FINAL image is its 16-byte header followed by exactly the encodings of the model's records, one
+   per line, in line order. *)
+Theorem C18_whole_image_meminfo_of_world : forall c (ls : list (N * N * N)) dirs lg s',
+  Image.image c MiniDump.empty_wst = MemWriter.Ok ((dirs, lg), s') -> Hoare.small (Hoare.blen s') -> Image.ic_meminfo c = meminfo_list ls ->
+  let n := length ls in
+  exists off,
+    Bytes.slice (Writer.w_buf s') off (16 + Image.MEMINFO_SZ * n) =
+      (Bytes.le 4 16 ++ Bytes.le 4 48 ++ Bytes.le 8 (N.of_nat n)) ++ concat (map Image.enc_meminfo (meminfo_list ls)) /\
+    In (Image.T_MEMINFO, {| MemWriter.l_rva := N.of_nat off; MemWriter.l_size := (16 + N.of_nat (Image.MEMINFO_SZ * n))%N |}) dirs.
+Proof. exact ImageThreads.image_meminfo_of_world. Qed.
+Print Assumptions C18_whole_image_meminfo_of_world.
